@@ -19,6 +19,7 @@ import (
 type tiffCase struct {
 	Pre []string `json:"pre"`
 	Hdr string   `json:"hdr"`
+	Ifd []string `json:"ifd"`
 	Off int      `json:"off"`
 	BO  string   `json:"bo"`
 }
@@ -42,7 +43,10 @@ func tiffStream(c *tiffCase, rng *rand.Rand) []byte {
 	case "BE":
 		b = append(b, 'M', 'M', 0x00, 0x2a)
 	}
-	for i := 0; i < 32; i++ { // first-IFD offset and the rest: bytes outside the signature alphabet ("X" in the model)
+	if c.Hdr != "NONE" && c.Hdr != "" {
+		b = append(b, gen.SymBytes(c.Ifd, rng)...) // the stored first-directory offset: data, in the model's classes
+	}
+	for i := 0; i < 32; i++ { // the rest: bytes outside the signature alphabet ("X" in the model)
 		b = append(b, gen.OtherByte(rng))
 	}
 	return b
